@@ -797,3 +797,19 @@ impl Rt for Igmp {
         "group in {224.0.0.1, 0.0.0.0, 239.255.255.255, 224.0.0.22} x {MembershipQuery v1 (max_resp_time 0), MembershipQuery v2 with the duration of every max-resp code 1..=255 (quick: 6 codes around the linear/exponential boundary), MembershipReport v1/v2, LeaveGroup}"
     }
 }
+
+/// Values outside the enumerated domain (see `super::probe`).
+pub fn observations() -> Vec<serde_json::Value> {
+    let h4 = |l| Ipv4Repr { src_addr: v4s()[0], dst_addr: v4s()[5], next_header: IpProtocol::Udp, payload_len: l, hop_limit: 64 };
+    let h6 = |l| Ipv6Repr { src_addr: v6s()[0], dst_addr: v6s()[3], next_header: IpProtocol::Udp, payload_len: l, hop_limit: 64 };
+    vec![
+        super::probe::<Icmp4>(&Icmpv4Repr::DstUnreachable { reason: Icmpv4DstUnreachable::PortUnreachable, header: h4(100), data: pat(8) }, &()),
+        super::probe::<Icmp4>(&Icmpv4Repr::TimeExceeded { reason: Icmpv4TimeExceeded::TtlExpired, header: h4(4), data: pat(4) }, &()),
+        super::probe::<NdOpt>(&NdiscOptionRepr::RedirectedHeader(NdiscRedirectedHeader { header: h6(100), data: pat(8) }), &()),
+        super::probe::<NdOpt>(&NdiscOptionRepr::SourceLinkLayerAddr(RawHardwareAddress::from_bytes(&[0x12, 0x34])), &()),
+        super::probe::<Igmp>(&IgmpRepr::MembershipQuery { max_resp_time: Duration::from_millis(0), group_addr: v4s()[3], version: IgmpVersion::Version2 }, &()),
+        super::probe::<Igmp>(&IgmpRepr::MembershipQuery { max_resp_time: Duration::from_millis(12850), group_addr: v4s()[3], version: IgmpVersion::Version2 }, &()),
+        super::probe::<Igmp>(&IgmpRepr::MembershipReport { group_addr: v4s()[0], version: IgmpVersion::Version2 }, &()),
+        super::probe::<MldRec>(&MldAddressRecordRepr { record_type: MldRecordType::ModeIsInclude, aux_data_len: 0, num_srcs: 0, mcast_addr: v6s()[0], payload: pat(0) }, &()),
+    ]
+}
